@@ -126,6 +126,11 @@ claim('C17', 'polynomial-exact differencing monitor on ConeCyl.calc_fint / calc_
       'fint and kT agree across thread counts to 1e-11 and repeat bit-exactly at a fixed count.',
       'fint polynomial of degree <= 4 in the amplitudes (checked per case); imperfection coefficients c0 are not exercised (stated in DESIGN section 8)', '4/C17')
 
+claim('C20', 'call-history recorder: random words over the public evaluation methods executed on one object, every call compared with the same call made first on a fresh identical object; digests of caller-owned arrays before/after; repetition under varying thread counts',
+      'Panels (flat/cylindrical, with loads, forces, aerodynamic data), assemblies with connections, stiffened bays with all stiffener kinds and shells of several models; histories of 3..14 calls with repetitions over stiffness / geometric / mass / aerodynamic matrices, load and internal '
+      'force vectors, tangent, buckling / frequency / static analyses and field recovery. A refusal or a different result (bit-exact; spectra at 1e-8) after some history is a violation, as is a refusal on a fresh object or a modified caller array; the field kernels are repeated under 1..16 threads and must be bit-identical.',
+      'references from fresh objects in the same process; ARPACK-based spectra compared numerically; memory-level races are additionally exercised by the sanitizer tier (DESIGN section 5)', '4/C20')
+
 ALL = ['C%02d' % i for i in range(1, 21)]
 PENDING_REASON = 'check not built yet in this round (runtime-monitoring plan in DESIGN.md section 4); will be claimed once its monitor runs silent on the unchanged tree'
 
